@@ -107,3 +107,12 @@ MUTATIONS += [
     dict(id="C05-hot-missing-hot-pack-is-warning", prop="C05", file=CK, old="        collector.add_error(CheckError::NoHotPack {", new="        collector.add_warn(CheckError::NoHotPack {"),
     dict(id="C05-hot-missing-hot-file-dropped", prop="C05", file=CK, old="    for (id, _) in files {\n        collector.add_error(CheckError::NoHotFile { id, file_type });\n    }", new="    for (id, _) in files {\n        collector.add_warn(CheckError::NoHotFile { id, file_type });\n    }"),
 ]
+
+# ---- C05 check_trees node loop
+MUTATIONS += [
+    dict(id="C05-trees-missing-blob-is-warning", prop="C05", file=CK, old="                                    collector.add_error(CheckError::FileBlobNotInIndex {", new="                                    collector.add_warn(CheckError::FileBlobNotInIndex {"),
+    dict(id="C05-trees-tree-pack-not-recorded", prop="C05", file=CK, old="                            Some(entry) => {\n                                _ = packs.insert(entry.pack);\n                            }\n                        }, // subtree is ok", new="                            Some(_entry) => {}\n                        }, // subtree is ok"),
+    dict(id="C05-trees-null-subtree-accepted", prop="C05", file=CK, old="                        Some(tree) if tree.is_null() => {", new="                        Some(tree) if tree.is_null() && node.content.is_none() => {"),
+    dict(id="C05-trees-no-content-accepted", prop="C05", file=CK, old="                        collector.add_error(CheckError::FileHasNoContent {", new="                        collector.add_warn(CheckError::FileHasNoContent {"),
+    dict(id="C05-trees-null-blob-accepted", prop="C05", file=CK, old="                            if id.is_null() {\n                                collector.add_error(", new="                            if id.is_null() && i > 0 {\n                                collector.add_error("),
+]
